@@ -94,43 +94,9 @@ def batch_marking(chk, f):
                      "atoms of the batch's parents (every even-membered ring closes this way) passes the test twice, is yielded twice, and so is everything reached through it")
 
 
-def bfs_rules(chk, f, with_dist):
-    q = _queue_name(f)
-    loops = [l for l in f.node.body if isinstance(l, ast.While) and norm(l.test) in (q, f"len({q}) > 0", f"len({q})", f"{q} != deque()")]
-    chk.require(len(loops) == 1, f"{f.key}: `while {q}` loop not found")
-    loop = loops[0]
-    deq = [c for c in walk_no_nested(loop) if isinstance(c, ast.Call) and isinstance(c.func, ast.Attribute) and norm(c.func.value) == q and c.func.attr in ("pop", "popleft")]
-    enq = [c for c in walk_no_nested(loop) if isinstance(c, ast.Call) and isinstance(c.func, ast.Attribute) and norm(c.func.value) == q and c.func.attr in ("append", "appendleft")]
-    chk.require(len(deq) == 1 and len(enq) >= 1, f"{f.key}: dequeue/enqueue inside the loop not found")
-    pairs = {(deq[0].func.attr, e.func.attr) for e in enq}
-    chk.decide(pairs <= OPPOSITE, "C15.R1", f"{f.key}:fifo", f.where(deq[0]), f"{q}.{deq[0].func.attr}() with {q}.{enq[0].func.attr}(): opposite ends (first in, first out)",
-               f"the loop takes from the queue with {deq[0].func.attr}() and puts back with {sorted(e.func.attr for e in enq)}: the same end is used, the traversal is depth-first, "
-               "distances are no longer shortest-path distances and the order is no longer by distance")
-    # visited discipline inside the loop
-    ys = [s for s in walk_no_nested(loop) if isinstance(s, ast.Expr) and contains_yield(s)]
-    chk.require(len(ys) >= 1, f"{f.key}: no yield inside the loop")
-    for y in ys:
-        g = [g for g in walk_no_nested(loop) if isinstance(g, ast.If) and any(x is y for x in g.body)]
-        ok = len(g) == 1
-        atom = None
-        if ok:
-            t = g[0].test
-            ok = isinstance(t, ast.Compare) and isinstance(t.ops[0], ast.NotIn) and norm(t.comparators[0]) == "visited"
-            atom = norm(t.left) if ok else None
-            body = [norm(s) for s in g[0].body]
-            yv = y.value.value
-            y_atom = norm(yv.elts[0]) if isinstance(yv, ast.Tuple) else norm(yv)
-            ok = ok and f"visited.add({atom})" in body and y_atom == atom and any(b.startswith(f"{q}.append") and atom in b for b in body) and not g[0].orelse
-            # neighbours come from connected_atoms of the popped atom
-            fl = [l for l in walk_no_nested(loop) if isinstance(l, ast.For) and any(x is g[0] for x in l.body)]
-            popped = None
-            for s in loop.body:
-                if isinstance(s, ast.Assign) and any(x is deq[0] for x in ast.walk(s)):
-                    popped = norm(s.targets[0].elts[0]) if isinstance(s.targets[0], ast.Tuple) else norm(s.targets[0])
-            ok = ok and len(fl) == 1 and norm(fl[0].iter) == f"self.connected_atoms({popped})" and norm(fl[0].target) == atom
-        chk.decide(ok, "C15.R2", f"{f.key}:visit-once", f.where(y), f"if {atom} not in visited: yield, visited.add({atom}), enqueue",
-                   "a neighbour is yielded without the `not in visited` test / without being marked visited and enqueued in the same block: atoms are repeated or never expanded")
-    vis = [s for s in f.node.body if isinstance(s, ast.Assign) and norm(s.targets[0]) == "visited"]
+def _seed_rules(chk, f, body, q, with_dist):
+    """start marked visited; what happens with / without a direction (`body` = the function's statements, `q` the queue name)"""
+    vis = [s for s in body if isinstance(s, ast.Assign) and norm(s.targets[0]) == "visited"]
     start = norm(vis[0].value) if vis else ""
     chk.decide(len(vis) == 1 and start in ("{start}", "set([start])", "set((start,))"), "C15.R2", f"{f.key}:start-visited", f.where(vis[0] if vis else None), "visited = {start}",
                f"visited is initialised as `{start}`: the start atom can be yielded / re-entered")
@@ -170,10 +136,10 @@ def bfs_rules(chk, f, with_dist):
         return None
 
     cands = []
-    for i_, g in enumerate(f.node.body):
+    for i_, g in enumerate(body):
         if isinstance(g, ast.If) and g.orelse and any(norm(x).startswith(f"{q}.append") for x in g.body + g.orelse):
             extra.clear()
-            cls_ = none_test(g.test, f.node.body[:i_])
+            cls_ = none_test(g.test, body[:i_])
             if cls_ is not None:
                 cands.append((g, cls_, list(extra)))
     chk.require(len(cands) == 1, f"{f.key}: direction branch not found")
@@ -197,6 +163,158 @@ def bfs_rules(chk, f, with_dist):
     asserts = [s for s in dirb[0].orelse if isinstance(s, ast.Assert)]
     chk.decide(len(asserts) == 1 and "connected_atoms(start)" in norm(asserts[0].test), "C15.R2", f"{f.key}:direction-is-a-neighbour", f.where(dirb0),
                "direction must be a neighbour of start", "the direction atom is not required to be a neighbour of the start")
+
+
+def bfs_rules_shell(chk, f, with_dist):
+    """The same walk written level by level: `shell` holds the atoms at distance d, the loop body collects the unvisited
+    neighbours of every atom of the shell into the next shell and swaps.  Same obligations, same keys as the queue form:
+    R1 order (a level is expanded completely, in order, before the next; the next-shell list is fresh for every level),
+    R2 visit-once (an atom is marked in the same guarded block in which it is yielded and collected - or the collected batch
+    is made duplicate-free before it is handed out, see batch_marking), seeds; R3 one distance step per level."""
+    loops = [l for l in f.node.body if isinstance(l, ast.While) and isinstance(l.test, ast.Name)]
+    chk.require(len(loops) == 1, f"{f.key}: neither a deque nor a `while <shell>` loop found")
+    loop = loops[0]
+    S = loop.test.id
+    ys = [s_ for s_ in walk_no_nested(loop) if isinstance(s_, ast.Expr) and contains_yield(s_)]
+    chk.require(len(ys) == 1, f"{f.key}: expected one yield inside the level loop")
+    y = ys[0]
+    yv = y.value.value
+    y_atom = norm(yv.elts[0]) if isinstance(yv, ast.Tuple) else norm(yv)
+    # the swap: `S = N` as a statement of the loop body, N a list built in this iteration - or S re-assigned from a comprehension over S
+    swaps = [s_ for s_ in loop.body if isinstance(s_, ast.Assign) and norm(s_.targets[0]) == S]
+    chk.require(swaps, f"{f.key}: the shell `{S}` is never replaced inside its loop")
+    per_atom = [g for g in walk_no_nested(loop) if isinstance(g, ast.If) and any(x is y for x in g.body)]
+    if per_atom:
+        g = per_atom[0]
+        t = g.test
+        okt = isinstance(t, ast.Compare) and len(t.ops) == 1 and isinstance(t.ops[0], ast.NotIn) and norm(t.comparators[0]) == "visited"
+        atom = norm(t.left) if okt else None
+        body = [norm(x) for x in g.body]
+        N = norm(swaps[-1].value) if isinstance(swaps[-1].value, ast.Name) else None
+        inner = [l for l in walk_no_nested(loop) if isinstance(l, ast.For) and any(x is g for x in l.body)]
+        outer = [l for l in walk_no_nested(loop) if isinstance(l, ast.For) and inner and any(x is inner[0] for x in l.body)]
+        shape = okt and N is not None and len(inner) == 1 and len(outer) == 1 and norm(outer[0].iter) == S and isinstance(outer[0].target, ast.Name) \
+            and norm(inner[0].iter) == f"self.connected_atoms({outer[0].target.id})" and norm(inner[0].target) == atom and y_atom == atom
+        chk.require(shape, f"{f.key}: the level loop is not `for p in {S}: for a in self.connected_atoms(p): if a not in visited: ...`")
+        fresh = [x for x in loop.body if isinstance(x, ast.Assign) and norm(x.targets[0]) == N and isinstance(x.value, ast.List) and not x.value.elts]
+        order_ok = bool(fresh) and loop.body.index(fresh[0]) < loop.body.index(outer[0]) < loop.body.index(swaps[-1]) and f"{N}.append({atom})" in body
+        chk.decide(order_ok, "C15.R1", f"{f.key}:fifo", f.where(outer[0]), f"level by level: `{N}` starts empty for every level, collects in order, becomes `{S}`",
+                   f"the next level `{N}` is not a fresh list filled by append inside the guarded block and swapped in after the level is done: atoms are expanded out of distance order, "
+                   "twice, or the loop does not end")
+        marked = f"visited.add({atom})" in body
+        chk.decide(marked and not g.orelse, "C15.R2", f"{f.key}:visit-once", f.where(y), f"if {atom} not in visited: yield, visited.add({atom}), collect",
+                   f"`{atom}` is yielded and collected under `{atom} not in visited` but not marked there (the level is marked in one go afterwards): an atom with two neighbours in the "
+                   "level that is being expanded - every even-membered ring closes this way - passes the test twice, is yielded twice, and so is everything behind it")
+        yield_stmt_owner = outer[0]
+    else:
+        # batch form: S = [a for p in S for a in self.connected_atoms(p) if a not in visited]; (dedupe); visited.update(S); for a in S: yield ..
+        comp = [x.value for x in swaps if isinstance(x.value, ast.ListComp)]
+        chk.require(len(comp) == 1 and len(comp[0].generators) == 2, f"{f.key}: the next level is not collected by one comprehension over the current one")
+        g0, g1 = comp[0].generators
+        tests = [t for t in g1.ifs if isinstance(t, ast.Compare) and len(t.ops) == 1 and isinstance(t.ops[0], ast.NotIn) and norm(t.comparators[0]) == "visited"]
+        shape = norm(g0.iter) == S and isinstance(g0.target, ast.Name) and norm(g1.iter) == f"self.connected_atoms({g0.target.id})" and norm(comp[0].elt) == norm(g1.target) and len(tests) == 1 and norm(tests[0].left) == norm(g1.target)
+        chk.require(shape, f"{f.key}: the comprehension is not `[a for p in {S} for a in self.connected_atoms(p) if a not in visited]`")
+        yl = [l for l in loop.body if isinstance(l, ast.For) and any(x is y for x in l.body)]
+        chk.require(len(yl) == 1 and norm(yl[0].iter) == S and norm(yl[0].target) == y_atom, f"{f.key}: the collected level is not handed out by `for a in {S}: yield`")
+        chk.ok("C15.R1", f"{f.key}:fifo", f.where(swaps[0]), f"level by level: `{S}` is replaced by the unvisited neighbours of its members, in order")
+        upd = [x for x in loop.body if isinstance(x, ast.Expr) and norm(x.value) in (f"visited.update({S})", f"visited.update(set({S}))") or (isinstance(x, ast.AugAssign) and norm(x.target) == "visited" and S in norm(x.value))]
+        dedup = any(isinstance(x, ast.Assign) and norm(x.targets[0]) == S and isinstance(x.value, ast.Call) and any(
+            isinstance(c, ast.Call) and (call_name(c) or "") in ("dict.fromkeys", "set", "frozenset") for c in ast.walk(x.value)) for x in loop.body)
+        okv = bool(upd) and dedup and loop.body.index(upd[0]) > loop.body.index(swaps[0])
+        chk.decide(okv, "C15.R2", f"{f.key}:visit-once", f.where(y), "the collected level is made duplicate-free, marked visited as a whole and handed out once",
+                   "the level collected by the comprehension is not both made duplicate-free and marked visited before the next level is collected: atoms are yielded twice or re-entered")
+        yield_stmt_owner = yl[0]
+    # seeds: `S = [x]` (and, with distances, `dist = k` next to it) plays the part of `queue.append(x)` / `queue.append((x, k))`
+    dname = None
+    if with_dist:
+        chk.require(isinstance(yv, ast.Tuple) and len(yv.elts) == 2, f"{f.key}: yields no (atom, distance) pair")
+        dn = [n.id for n in ast.walk(yv.elts[1]) if isinstance(n, ast.Name)]
+        chk.require(len(dn) == 1, f"{f.key}: the yielded distance is not spelled from one counter")
+        dname = dn[0]
+    body2 = copy.deepcopy(f.node.body)
+
+    def seeds(blk):
+        flat = []
+        for x in blk:   # `shell, dist = [x], k` is two bindings
+            if isinstance(x, ast.Assign) and len(x.targets) == 1 and isinstance(x.targets[0], ast.Tuple) and isinstance(x.value, ast.Tuple) and len(x.targets[0].elts) == len(x.value.elts):
+                flat.extend(ast.copy_location(ast.Assign([t_], v_), x) for t_, v_ in zip(x.targets[0].elts, x.value.elts))
+            else:
+                flat.append(x)
+        blk = flat
+        out = []
+        dval = None
+        for x in blk:
+            if dname and isinstance(x, ast.Assign) and norm(x.targets[0]) == dname and isinstance(x.value, ast.Constant):
+                dval = x.value
+        for x in blk:
+            if isinstance(x, ast.Assign) and norm(x.targets[0]) == S and isinstance(x.value, ast.List) and len(x.value.elts) == 1:
+                arg = ast.Tuple([x.value.elts[0], dval], ast.Load()) if dname and dval is not None else x.value.elts[0]
+                out.append(ast.copy_location(ast.Expr(ast.Call(ast.Attribute(ast.Name(S, ast.Load()), "append", ast.Load()), [arg], [])), x))
+            elif dname and isinstance(x, ast.Assign) and norm(x.targets[0]) == dname and isinstance(x.value, ast.Constant):
+                continue
+            else:
+                if isinstance(x, ast.If):
+                    x.body, x.orelse = seeds(x.body), seeds(x.orelse)
+                out.append(x)
+        for o in out:
+            ast.fix_missing_locations(o)
+        return out
+
+    body2 = seeds(body2)
+    _seed_rules(chk, f, body2, S, with_dist)
+    if with_dist:
+        # one step per level: `d += 1` is a statement of the loop body (not of an inner loop), and the yielded distance is the counter
+        # itself when the step comes before the level is handed out, counter + 1 when it comes after
+        steps = [x for x in loop.body if isinstance(x, ast.AugAssign) and norm(x.target) == dname and isinstance(x.op, ast.Add) and norm(x.value) == "1"]
+        others = [x for x in walk_no_nested(loop) if isinstance(x, (ast.AugAssign, ast.Assign)) and dname in [norm(t) for t in (x.targets if isinstance(x, ast.Assign) else [x.target])] and x not in steps]
+        ok = len(steps) == 1 and not others
+        if ok:
+            before = loop.body.index(steps[0]) < loop.body.index(yield_stmt_owner)
+            ok = norm(yv.elts[1]) == (dname if before else f"{dname} + 1")
+        chk.decide(ok, "C15.R3", f"{f.key}:distance-plus-one", f.where(y), f"`{dname}` grows by one per level and the level is yielded with it",
+                   f"the yielded distance `{norm(yv.elts[1])}` is not the level counter stepped exactly once per level: reported distances are not shortest-path lengths")
+
+
+def bfs_rules(chk, f, with_dist):
+    try:
+        q = _queue_name(f)
+    except AnalysisError:
+        return bfs_rules_shell(chk, f, with_dist)
+    loops = [l for l in f.node.body if isinstance(l, ast.While) and norm(l.test) in (q, f"len({q}) > 0", f"len({q})", f"{q} != deque()")]
+    chk.require(len(loops) == 1, f"{f.key}: `while {q}` loop not found")
+    loop = loops[0]
+    deq = [c for c in walk_no_nested(loop) if isinstance(c, ast.Call) and isinstance(c.func, ast.Attribute) and norm(c.func.value) == q and c.func.attr in ("pop", "popleft")]
+    enq = [c for c in walk_no_nested(loop) if isinstance(c, ast.Call) and isinstance(c.func, ast.Attribute) and norm(c.func.value) == q and c.func.attr in ("append", "appendleft")]
+    chk.require(len(deq) == 1 and len(enq) >= 1, f"{f.key}: dequeue/enqueue inside the loop not found")
+    pairs = {(deq[0].func.attr, e.func.attr) for e in enq}
+    chk.decide(pairs <= OPPOSITE, "C15.R1", f"{f.key}:fifo", f.where(deq[0]), f"{q}.{deq[0].func.attr}() with {q}.{enq[0].func.attr}(): opposite ends (first in, first out)",
+               f"the loop takes from the queue with {deq[0].func.attr}() and puts back with {sorted(e.func.attr for e in enq)}: the same end is used, the traversal is depth-first, "
+               "distances are no longer shortest-path distances and the order is no longer by distance")
+    # visited discipline inside the loop
+    ys = [s for s in walk_no_nested(loop) if isinstance(s, ast.Expr) and contains_yield(s)]
+    chk.require(len(ys) >= 1, f"{f.key}: no yield inside the loop")
+    for y in ys:
+        g = [g for g in walk_no_nested(loop) if isinstance(g, ast.If) and any(x is y for x in g.body)]
+        ok = len(g) == 1
+        atom = None
+        if ok:
+            t = g[0].test
+            ok = isinstance(t, ast.Compare) and isinstance(t.ops[0], ast.NotIn) and norm(t.comparators[0]) == "visited"
+            atom = norm(t.left) if ok else None
+            body = [norm(s) for s in g[0].body]
+            yv = y.value.value
+            y_atom = norm(yv.elts[0]) if isinstance(yv, ast.Tuple) else norm(yv)
+            ok = ok and f"visited.add({atom})" in body and y_atom == atom and any(b.startswith(f"{q}.append") and atom in b for b in body) and not g[0].orelse
+            # neighbours come from connected_atoms of the popped atom
+            fl = [l for l in walk_no_nested(loop) if isinstance(l, ast.For) and any(x is g[0] for x in l.body)]
+            popped = None
+            for s in loop.body:
+                if isinstance(s, ast.Assign) and any(x is deq[0] for x in ast.walk(s)):
+                    popped = norm(s.targets[0].elts[0]) if isinstance(s.targets[0], ast.Tuple) else norm(s.targets[0])
+            ok = ok and len(fl) == 1 and norm(fl[0].iter) == f"self.connected_atoms({popped})" and norm(fl[0].target) == atom
+        chk.decide(ok, "C15.R2", f"{f.key}:visit-once", f.where(y), f"if {atom} not in visited: yield, visited.add({atom}), enqueue",
+                   "a neighbour is yielded without the `not in visited` test / without being marked visited and enqueued in the same block: atoms are repeated or never expanded")
+    _seed_rules(chk, f, f.node.body, q, with_dist)
     if with_dist:
         # popped distance + 1 both ways
         dist = None
